@@ -2,11 +2,11 @@ CONSTANTS
   Kind = "xmux"
   NConns = 3
   NStreams = 4
-  NIdx = 1
+  NIdx = 2
   MaxReqs = {0, 1, 2}
-  MaxOps = 5
-  SplitNew = FALSE
-  Defects = {"DestroyNotCounted"}
+  MaxOps = 4
+  SplitNew = TRUE
+  Defects = {}
 SPECIFICATION Spec
 INVARIANTS InvType InvBound InvCounts InvLiveOnOpen InvGoAwayDrains InvNoOrphan InvSlotUsable InvLimit InvAdmitOnUsable InvRefusalJustified InvRefusalNeutral InvNoDialAfterShutdown InvNeverNegative InvSendFail InvSendOk
 CHECK_DEADLOCK FALSE
